@@ -190,6 +190,15 @@ static void gen_hist(struct hist_case *hc, int maxhist)
 	hc->via_mem = vrng_chance(30);
 	hc->rng = (unsigned)vrng_next() | 1;
 	c06_gen_history(&hc->hist, vrng_range(1, maxhist), mods.n);
+	if (vrng_chance(35) && hc->hist.n + 3 < C06_MAXOPS) {
+		/* the same module was played earlier on this context, usually at another rate / format */
+		struct c06_op *o = &hc->hist.op[hc->hist.n];
+		memset(o, 0, 3 * sizeof(*o));
+		o[0].kind = OP_LOAD; o[0].a = hc->target;
+		o[1].kind = OP_START; o[1].a = c06_rates[vrng_below(5)]; o[1].b = vrng_below(8);
+		o[2].kind = OP_FRAMES; o[2].a = vrng_range(4, 60);
+		hc->hist.n += 3;
+	}
 	c06_gen_control(&hc->ctl, vrng_range(3, 14));
 	hc->prerun.n = 0;
 	if (vrng_chance(40)) {
